@@ -47,7 +47,7 @@ TH = ('thorough',)
 EX = ('experimental',)
 INSTANCES = [
     # static chunking (decided).  On /repo these report the static / no-wait / tail defect (see NOTES.md).
-    inst('static_n1', 1, 6, timeout=290, thorough={'timeout': 1500}),
+    inst('static_n1', 1, 6, timeout=900, thorough={'timeout': 1500}),
     inst('static_n2', 2, 6, depth=3, tiers=TH, timeout=1500),
     # wired but never run to completion / too big (see NOTES.md): --tier experimental --only <name>
     inst('static_n1_startend', 1, 6, api=1, tiers=EX, timeout=900),
